@@ -679,3 +679,221 @@ def systematic_pairs():
     for (lo, hi) in ((V33, V33), (V34, V34)):
         yield ("sys:alpn", rng_spec(lo, hi), rng_spec(lo, hi), "rsa", (["h2", "http/1.1"], ["spdy/3", "http/1.1"]))
         yield ("sys:alpn", rng_spec(lo, hi), rng_spec(lo, hi), "rsa", (["h2"], ["h2"]))
+
+
+# ---------------------------------------------------------------------------------------------
+# PSK / ticket dimension (TLS 1.3): settings that share an external PSK, or a client resuming with the
+# ticket of an earlier connection, crossed with "share sent at once" / "HelloRetryRequest forced"
+# ---------------------------------------------------------------------------------------------
+PRF_OF_CIPHER13 = {"aes128gcm": "sha256", "aes256gcm": "sha384", "chacha20-poly1305": "sha256", "aes128ccm": "sha256"}
+
+
+def psk_expectation(table, cs, ss, cred, psk_hash, cmodes, smodes):
+    """(must_complete, psk_must_be_used, why).  RFC 8446 4.2.11: a PSK is bound to a hash and can only be
+    selected together with a cipher suite whose PRF hash (the suffix of its IANA name) is that hash;
+    4.2.9: a key-exchange mode both ends list is needed."""
+    ok, why, v = compatible(table, cs, ss, cred)
+    if ok is not True or v != V34:
+        return ok, None, why
+    both = enabled_suites(table, cs, V34) & enabled_suites(table, ss, V34)
+    prfs = set("sha384" if table[sid]["name"].endswith("_SHA384") else "sha256" for sid in both)
+    if not [m for m in cmodes if m in smodes]:
+        return None, None, "no-common-psk-mode"
+    if prfs == set([psk_hash]):
+        return True, True, "ok"
+    if psk_hash not in prfs:
+        return True, False, "psk-hash-fits-no-common-suite"
+    return True, None, "suite-choice-decides-whether-psk-fits"
+
+
+def _trace_server(L, log):
+    """record the classes of the messages the server sends and, for each ServerHello, whether it
+    carries pre_shared_key (extension 41)"""
+    from harness import lab
+
+    def fn(kind, msg):
+        n = type(msg).__name__
+        if n == "ServerHello":
+            try:
+                from tlslite.constants import TLS_1_3_HRR
+                if bytes(msg.random) == bytes(TLS_1_3_HRR):
+                    log.append(("HelloRetryRequest", None))
+                    return [msg]
+                log.append(("ServerHello", msg.getExtension(41) is not None))
+            except Exception:
+                log.append(("ServerHello", None))
+        else:
+            log.append((n, None))
+        return [msg]
+    lab.hook_messages(L.server.conn, fn)
+
+
+def _exchange(L):
+    w = L.write("client", b"ping from client")
+    rd = L.read("server", max=100, min=16)
+    ok = w[0] == "ok" and rd[0] == "ok" and rd[1] == b"ping from client"
+    w = L.write("server", b"pong from server")
+    rd = L.read("client", max=100, min=16)
+    return ok and w[0] == "ok" and rd[0] == "ok" and rd[1] == b"pong from server"
+
+
+def _psk_tuple(p):
+    t = (bytearray(p["identity"].encode("ascii")), bytearray((p.get("seed", 7) + i) % 256 for i in range(p["secret_len"])))
+    if p.get("hash") is not None:
+        t = t + (p["hash"],)
+    return t
+
+
+def run_psk_pair(spec):
+    """spec: kind 'external' | 'ticket', client, server, cred, psk (external), client2 (ticket: settings of
+    the resuming connection).  Returns dict with outcome and what was observed."""
+    from harness import lab
+    try:
+        cset = mk_settings(spec["client"])
+        sset = mk_settings(spec["server"])
+        if spec["kind"] == "external":
+            shared = _psk_tuple(spec["psk"])
+            decoys = [_psk_tuple(d) for d in spec.get("client_decoys", [])]
+            pos = spec.get("shared_position", 0)
+            cl = list(decoys)
+            cl.insert(min(pos, len(cl)), shared)
+            cset.pskConfigs = cl
+            sset.pskConfigs = [_psk_tuple(d) for d in spec.get("server_decoys", [])] + [shared]
+        else:
+            sset.ticketKeys = [bytearray(range(32))]
+            sset.ticket_count = spec.get("ticket_count", 1)
+        cset = cset.validate()
+        sset = sset.validate()
+    except ValueError as e:
+        return {"outcome": "invalid", "why": str(e)[:120]}
+    res = {"cset": settings_dict(cset), "sset": settings_dict(sset)}
+    session = None
+    if spec["kind"] == "ticket":
+        # first connection: full handshake, then traffic so that the client reads its NewSessionTicket
+        L0 = lab.handshake(cset, sset, cred=spec["cred"])
+        if not (L0.client.state == "done" and L0.server.state == "done" and _exchange(L0)):
+            res.update(outcome="first-connection-failed", client_exc=lab.exc_class(L0.client.exc),
+                       server_exc=lab.exc_class(L0.server.exc))
+            return res
+        session = L0.client.conn.session
+        res["tickets_received"] = len(session.tickets or [])
+        if not session.tickets:
+            res["outcome"] = "no-ticket-received"
+            return res
+        try:
+            c2 = mk_settings(spec["client2"])
+            cset2 = c2.validate()
+        except ValueError as e:
+            return {"outcome": "invalid", "why": str(e)[:120]}
+        res["cset2"] = settings_dict(cset2)
+    else:
+        cset2 = cset
+    log = []
+    ckw = {"session": session} if session is not None else {}
+    L = lab.handshake(cset2, sset, cred=spec["cred"], client_kw=ckw, before_run=lambda LL: _trace_server(LL, log))
+    res.update(client=L.client.state, server=L.server.state, client_exc=lab.exc_class(L.client.exc),
+               server_exc=lab.exc_class(L.server.exc),
+               server_msgs=[n for n, _ in log if n in ("ServerHello", "Certificate", "CertificateVerify")])
+    hellos = [x for n, x in log if n == "ServerHello"]
+    res["hrr"] = any(n == "HelloRetryRequest" for n, _ in log)
+    res["psk_selected"] = bool(hellos and hellos[-1])
+    res["server_sent_certificate"] = any(n == "Certificate" for n, _ in log)
+    if L.client.state == "done" and L.server.state == "done":
+        res["outcome"] = "complete" if _exchange(L) else "complete-but-no-data"
+        res["version"] = tuple(L.client.conn.version)
+        res["suite"] = L.client.conn.session.cipherSuite
+        res["client_resumed"] = bool(L.client.conn.resumed)
+        res["server_resumed"] = bool(L.server.conn.resumed)
+    else:
+        res["outcome"] = "fail"
+    return res
+
+
+def psk_pairs(rng, n_random):
+    """yield (kind label, spec) — every spec is meant to be compatible"""
+    def base(lo, hi, **kw):
+        d = {"minVersion": list(lo), "maxVersion": list(hi), "versions": vrange(lo, hi)[::-1]}
+        if lo == V34:
+            d["eccCurves"] = list(CURVES_COMMON)
+        d.update(kw)
+        return d
+    # group layouts: (client curves, client ffdhe, server curves, server ffdhe, common groups)
+    layouts = [
+        (["x25519", "secp256r1"], ["ffdhe2048"], ["secp256r1", "x25519"], ["ffdhe2048"], ["x25519", "secp256r1", "ffdhe2048"]),
+        (["x25519", "secp384r1"], [], ["secp256r1", "x25519"], [], ["x25519"]),
+        (["x25519"], ["ffdhe2048", "ffdhe3072"], ["secp256r1"], ["ffdhe4096", "ffdhe2048"], ["ffdhe2048"]),
+        (["secp384r1", "x448"], ["ffdhe3072"], ["secp521r1", "secp384r1"], [], ["secp384r1"]),
+    ]
+    ciphers_for = {"sha256": [["aes128gcm"], ["chacha20-poly1305"], ["aes128ccm", "aes128gcm"]], "sha384": [["aes256gcm"]]}
+
+    def share_variants(cecc, cdh, common):
+        own = cecc + cdh
+        others = [g for g in own if g not in common]
+        yield "share-at-once", [common[0]]
+        yield "hrr-no-share", []
+        if others:
+            yield "hrr-other-share", others[:1]
+            yield "other-then-common", others[:1] + [common[0]]
+
+    # ---- systematic
+    for li, (cecc, cdh, secc, sdh, common) in enumerate(layouts):
+        for label, shares in share_variants(cecc, cdh, common):
+            for h in ("sha256", "sha384", None):
+                for modes in ((["psk_dhe_ke"], ["psk_dhe_ke", "psk_ke"]), (["psk_ke"], ["psk_ke", "psk_dhe_ke"]),
+                              (["psk_dhe_ke", "psk_ke"], ["psk_dhe_ke"])):
+                    ciph = ciphers_for[h or "sha256"][li % len(ciphers_for[h or "sha256"])]
+                    for (clo, slo) in ((V34, V34), (V33, V33)) if li < 2 else ((V34, V33),):
+                        c = base(clo, V34, eccCurves=list(cecc), dhGroups=list(cdh), keyShares=list(shares),
+                                 cipherNames=ciph + (["aes128"] if clo < V34 else []), psk_modes=modes[0])
+                        s = base(slo, V34, eccCurves=list(secc), dhGroups=list(sdh), keyShares=(secc + sdh)[:1],
+                                 psk_modes=modes[1])
+                        spec = {"kind": "external", "client": c, "server": s, "cred": ["rsa", "ecdsa", "ed25519", "rsapss"][li],
+                                "psk": {"identity": "shared-psk", "secret_len": 32 if h != "sha384" else 48, "hash": h},
+                                "client_decoys": [{"identity": "unknown-to-server", "secret_len": 32, "hash": h, "seed": 99}]
+                                if (li + len(shares)) % 2 else [],
+                                "shared_position": 1 if li % 2 else 0,
+                                "server_decoys": [{"identity": "another", "secret_len": 32, "hash": "sha256", "seed": 3}] if li == 2 else []}
+                        yield ("psk:external:" + label, spec)
+            # ticket resumption: first connection sends a usable share, the resuming one varies
+            for ciph in (["aes128gcm"], ["aes256gcm"], ["chacha20-poly1305", "aes256gcm"]):
+                c1 = base(V33 if li % 2 else V34, V34, eccCurves=list(cecc), dhGroups=list(cdh), keyShares=[common[0]],
+                          cipherNames=ciph + (["aes128"] if li % 2 else []))
+                c2 = dict(c1, keyShares=list(shares))
+                s = base(V33 if li < 2 else V34, V34, eccCurves=list(secc), dhGroups=list(sdh), keyShares=(secc + sdh)[:1])
+                yield ("psk:ticket:" + label, {"kind": "ticket", "client": c1, "client2": c2, "server": s,
+                                               "cred": ["rsa", "ecdsa", "ed25519", "rsapss"][li], "ticket_count": 1 + li % 2})
+    # ---- random
+    for _ in range(n_random):
+        cecc, cdh, secc, sdh, common = rng.choice(layouts)
+        label, shares = rng.choice(list(share_variants(cecc, cdh, common)))
+        cred = rng.choice(["rsa", "rsapss", "ecdsa", "ecdsa384", "ed25519", "ed448"])
+        clo, slo = rng.choice([V31, V33, V34]), rng.choice([V31, V33, V34])
+        extra = {}
+        if rng.random() < 0.3:
+            extra["record_size_limit"] = rng.choice([64, 512, 2 ** 14])
+        if rng.random() < 0.3:
+            extra["useEncryptThenMAC"] = rng.random() < 0.5
+        if rng.random() < 0.5:
+            h = rng.choice(["sha256", "sha384", None])
+            ciph = rng.choice(ciphers_for[h or "sha256"])
+            modes = rng.choice([(["psk_dhe_ke"], ["psk_dhe_ke", "psk_ke"]), (["psk_ke"], ["psk_ke"]),
+                                (["psk_ke", "psk_dhe_ke"], ["psk_dhe_ke", "psk_ke"]), (["psk_dhe_ke"], ["psk_dhe_ke"])])
+            c = base(clo, V34, eccCurves=list(cecc), dhGroups=list(cdh), keyShares=list(shares),
+                     cipherNames=ciph + (["aes128", "aes256"] if clo < V34 else []), psk_modes=modes[0], **extra)
+            s = base(slo, V34, eccCurves=list(secc), dhGroups=list(sdh), keyShares=(secc + sdh)[:1], psk_modes=modes[1])
+            nd = rng.randrange(0, 3)
+            yield ("psk:external:" + label, {
+                "kind": "external", "client": c, "server": s, "cred": cred,
+                "psk": {"identity": "psk-%d" % rng.randrange(1000), "secret_len": rng.choice([16, 32, 48]), "hash": h,
+                        "seed": rng.randrange(256)},
+                "client_decoys": [{"identity": "decoy-%d" % k, "secret_len": 32, "hash": h, "seed": 50 + k} for k in range(nd)],
+                "shared_position": rng.randrange(0, nd + 1),
+                "server_decoys": [{"identity": "srv-only", "secret_len": 32, "hash": "sha256", "seed": 1}] if rng.random() < 0.3 else []})
+        else:
+            ciph = rng.choice([["aes128gcm"], ["aes256gcm"], ["chacha20-poly1305"], ["aes128ccm"], ["aes256gcm", "aes128gcm"]])
+            c1 = base(clo, V34, eccCurves=list(cecc), dhGroups=list(cdh), keyShares=[common[0]],
+                      cipherNames=ciph + (["aes128", "aes256"] if clo < V34 else []), **extra)
+            c2 = dict(c1, keyShares=list(shares))
+            s = base(slo, V34, eccCurves=list(secc), dhGroups=list(sdh), keyShares=(secc + sdh)[:1])
+            yield ("psk:ticket:" + label, {"kind": "ticket", "client": c1, "client2": c2, "server": s, "cred": cred,
+                                           "ticket_count": rng.choice([1, 2, 3])})
